@@ -186,6 +186,9 @@ impl Scenario for Dens {
     fn execute(&self, plan: &DensPlan, ctx: &mut Ctx) -> Result<(), Violation> {
         let spec = &plan.spec;
         let m = spec.m;
+        if m <= 4096 {
+            decoy_unode(spec);
+        }
         let mut node = make_unode(spec);
         // model
         let mut streamed: Vec<u64> = vec![]; // sequence since last reinit
